@@ -12,6 +12,20 @@ NOT_APPLICABLE = {}
 HOOK_COMMITS = []
 
 CHECKS = {
+    "C14": {
+        "run": "^TestC14_",
+        "rule": ("cases = (stage or chain placed between a never-ending manually driven source and an early terminator, terminator {Take n, First, Head, ElementAt, TakeWhile, TakeUntil(signal), "
+                 "MapErr failing at the n-th value, external Unsubscribe, cancellation of the subscription context}, cut position). The source is NOT driven again after the cut. Every case is "
+                 "non-trivial (the source is still live at the cut); distinct by descriptor hash."),
+        "quick": {"rapid": 150, "timeout": 300, "shards": 4},
+        "thorough": {"rapid": 3000, "timeout": 3000, "shards": 16},
+        "assumptions": COMMON_ASSUMPTIONS + ["testing/synctest: after synctest.Wait() a goroutine that is still blocked is definitely blocked; time is virtual"],
+        "technique": "property-based testing inside testing/synctest bubbles: enumerated stage x terminator x cut position, release and return observed at bubble quiescence (no timeouts)",
+        "level_text": ("Exploration. Each stage of the catalogue (and ten time-driven / hand-off / context stages) is put between a never-ending source and each early terminator; "
+                       "once the downstream side has terminated and the bubble is quiescent, the source's teardown must have run exactly once, nothing may remain subscribed (signal "
+                       "included), the Subscribe call must have returned, and - after the harness has released everything it controls - no goroutine may be left blocked in the bubble."),
+        "level_note": "One design-level listed finding (operators that wait inside Subscribe); a sample of those cases keeps running to print the KNOWN-FINDING, the rest is excluded by construction and counted.",
+    },
     "C13": {
         "run": "^TestC13_",
         "race": True,
